@@ -3,6 +3,7 @@
 package c04exec
 
 import (
+	"errors"
 	"fmt"
 	"math/rand"
 	"testing"
@@ -41,13 +42,17 @@ func storeArr(o *Outcome) []any {
 
 func obsJSON(o *Outcome) map[string]any {
 	return map[string]any{"halt": o.Halt, "notes": noteArr(o.Notes), "store": storeArr(o), "bal": o.Bal,
-		"xferlog": o.XferLog, "delivered": noteArr(o.Delivered), "fault": o.Fault}
+		"xferlog": o.XferLog, "delivered": noteArr(o.Delivered), "fault": o.Fault, "dep": o.Dep}
 }
 
 // runBatch deploys the contracts of all scenarios (one block), then runs their transactions in blocks of the given
 // sizes (in the given order) and records tx / block events.
 func runBatch(t *testing.T, w *World, res *vh.Result, tr, steps *vh.Trace, scs []*Scenario, r *rand.Rand, traceEvery int) error {
 	if err := w.Prepare(scs); err != nil {
+		var hm *HaltedEffectMissing
+		if errors.As(err, &hm) {
+			res.Violate(map[string]any{"kind": "HaltedEffectMissing", "where": "setup-deploy"}, hm.What, nil)
+		}
 		return fmt.Errorf("prepare: %w", err)
 	}
 	for i := 0; i < len(scs); {
@@ -108,7 +113,7 @@ func runBatch(t *testing.T, w *World, res *vh.Result, tr, steps *vh.Trace, scs [
 		}
 		after := w.Snapshot()
 		tr.Emit(map[string]any{"event": "block", "nset": after.Nset, "nset_disk": after.NsetDisk, "sink": after.Sink,
-			"payer_delta": after.Payer - before.Payer, "fees": fees, "ntx": len(blk)})
+			"payer_delta": after.Payer - before.Payer, "fees": fees, "ntx": len(blk), "nextid_delta": after.NextID - before.NextID})
 		// code -> spec: statement-level trace of the same transactions in a test VM (after the block has been judged,
 		// on the post-block state: the step validator starts from whatever the test VM shows at the beginning)
 		for _, s := range blk {
